@@ -517,7 +517,16 @@ namespace ip {
 				p.overhead = 40;
 				p.hops = hops;
 				p.seq_nr = m_next_outgoing_seq++;
-				p.drop_fun = std::bind(&tcp::socket::packet_dropped, this, _1);
+				// report drops through the forwarder, not the raw socket pointer:
+				// it is detached when this connection is closed or the socket is
+				// destroyed (late notifications vanish) and follows the socket
+				// when it is moved
+				std::shared_ptr<aux::sink_forwarder> fwd = m_forwarder;
+				p.drop_fun = [fwd](aux::packet pkt)
+				{
+					auto* s = static_cast<tcp::socket*>(fwd->destination());
+					if (s) s->packet_dropped(std::move(pkt));
+				};
 
 				send_packet(std::move(p));
 				ptr += packet_size;
